@@ -17,7 +17,7 @@ Bodies(k, prompted) == LET rs == Reads(k, prompted) IN
     <<"rterr-first", <<Fault, SPrint(Str("start"))>> \o rs>>,
     <<"rterr-middle", <<SPrint(Str("start"))>> \o SubSeq(rs, 1, k \div 2) \o <<Fault>> \o SubSeq(rs, k \div 2 + 1, k) \o <<SPrint(Str("end"))>>>>,
     <<"rterr-last", <<SPrint(Str("start"))>> \o rs \o <<SPrint(Str("end")), Fault>>>> }
-LinePool == << StrCps("alpha"), StrCps("  beta gamma  "), <<9>> \o StrCps("delta") \o <<9, 32>>, StrCps(""), <<2453, 2494>>, StrCps("12") >>
+LinePool == << StrCps("alpha"), StrCps("  beta gamma  "), <<9>> \o StrCps("delta") \o <<9, 32>>, StrCps(""), <<2453, 2494>>, StrCps("12"), <<32, 9, 32>> >>     \* the last: blanks only
 Inputs(n) == [i \in 1..n |-> LinePool[1 + ((i * 2 + n) % Len(LinePool))]]
 Cross(A, B(_), F(_, _)) == FlattenSeq([i \in 1..Len(A) |-> LET bs == B(A[i]) IN [j \in 1..Len(bs) |-> F(A[i], bs[j])]])
 Combos == Cross(<<0, 1, 2, 3, 5>>, LAMBDA k : <<0, 1, 2, 3, 4>>, LAMBDA k, n : <<k, n>>)
